@@ -683,7 +683,7 @@ def check_C20(tier, seed):
     rp.assumptions = ["natvis rendering by Visual Studio itself is not executed; only the member paths are resolved (through gdb, on GCC/Clang DWARF)"]
     builds = [("g++", ["-std=c++17", "-O0", "-g"])]
     if tier != "quick":
-        builds += [("clang++", ["-std=c++17", "-O0", "-g"]), ("g++", ["-std=c++20", "-O0", "-g"]), ("g++", ["-std=c++11", "-O0", "-g", "-Dconstexpr_if="])]
+        builds += [("clang++", ["-std=c++17", "-O0", "-g", "-fstandalone-debug"]), ("g++", ["-std=c++20", "-O0", "-g"])]   # -fstandalone-debug: clang otherwise omits std::string's members (extern template)
     builds = builds[:3]
     specs = [{"src": "gdbinf.cpp", "cc": cc, "flags": fl, "name": "gdbinf"} for cc, fl in builds]
     bins = build_many(specs)
